@@ -623,7 +623,7 @@ func (e *Engine) findTeddyAt(haystack []byte, at int) *Match {
 	// For Fat Teddy with small haystacks, use Aho-Corasick fallback.
 	if e.fatTeddyFallback != nil && len(haystack) < fatTeddySmallHaystackThreshold {
 		atomic.AddUint64(&e.stats.AhoCorasickSearches, 1)
-		match, found := e.fatTeddyFallback.FindAt(haystack, at)
+		match, found := e.fatTeddyFallback.Find(haystack, at)
 		if !found {
 			return nil
 		}
